@@ -16,7 +16,7 @@ func init() {
 	simrt.Register(&simrt.Scenario{
 		Prop: "C13", Name: "dead-peer", Count: tiered(3000, 480000),
 		Run: c13Dead, MaxOps: 2 << 20, Horizon: 6 * time.Hour,
-		Doc: "transport goes totally silent at a tape-chosen instant with 0..N+3 messages queued at that moment (idle / sending / full window with a blocked Send); both endpoints must fail their calls within the bound",
+		Doc: "transport goes totally silent at a tape-chosen instant with 0..N+3 messages queued at that moment (idle / sending / full window with a blocked Send), in half of the runs after the connection has been through - and recovered from - a blackout on a full window that lasted longer than the ping interval; both endpoints must fail their calls within the bound",
 	})
 	simrt.Register(&simrt.Scenario{
 		Prop: "C13", Name: "idle-healthy", Count: tiered(400, 160000),
@@ -24,8 +24,13 @@ func init() {
 		Doc: "fault-free link with round-trip latency below the pong timeout, idle for up to 12 virtual hours (occasional traffic): keepalive must never close it",
 	})
 	simrt.Register(&simrt.Scenario{
+		Prop: "C13", Name: "idle-lost-ack", Count: tiered(250, 160000),
+		Run: func(rc *simrt.RunCtx) { c13IdleX(rc, "lost-ack") }, MaxOps: 6 << 20, Horizon: 14 * time.Hour,
+		Doc: "as idle-healthy on a fast link that loses an isolated ACK now and then (at most one per 15 s and direction; resend timeout 100-400 ms, pong timeout 2-5 s): the peer answers the retransmitted ping with a NACK well inside the pong timeout, keepalive must not close the connection",
+	})
+	simrt.Register(&simrt.Scenario{
 		Prop: "C13", Name: "idle-resonant", Count: tiered(1000, 480000),
-		Run: func(rc *simrt.RunCtx) { c13IdleX(rc, true) }, MaxOps: 6 << 20, Horizon: 14 * time.Hour,
+		Run: func(rc *simrt.RunCtx) { c13IdleX(rc, "resonant") }, MaxOps: 6 << 20, Horizon: 14 * time.Hour,
 		Doc: "as idle-healthy, with windows of 1-3 packets (the pings themselves fill the window), equal ping intervals on both sides, one-way latency a multiple of ping/8 and a pong timeout between the round trip and ping + round trip: ping ticks, pong expiries and packet arrivals fall on the same virtual instants, the tape orders them",
 	})
 }
@@ -108,6 +113,38 @@ func c13Dead(rc *simrt.RunCtx) {
 		if cli.Send(mkMsg('A', i, 20)) != nil || srv.Send(mkMsg('B', i, 20)) != nil {
 			break
 		}
+	}
+	// sometimes the connection has been through a stall before: a blackout
+	// long enough for a ping tick to pass while the client sits on a full
+	// window, short enough to survive; then everything recovers
+	if rc.Pick(2, "wl.earlier-stall") == 1 {
+		from := rc.Now()
+		dur := tkC.ping + time.Duration(rc.Pick(int(tkC.pong/2/time.Millisecond)+1, "wl.stall-len"))*time.Millisecond
+		w := window{from, from + dur}
+		np.c2s.mu.Lock()
+		c2s.blackouts = append(c2s.blackouts, w)
+		np.c2s.mu.Unlock()
+		np.s2c.mu.Lock()
+		s2c.blackouts = append(s2c.blackouts, w)
+		np.s2c.mu.Unlock()
+		wg.Add(1)
+		go func() {
+			defer wg.Done()
+			for i := 0; i <= int(n); i++ {
+				if cli.Send(mkMsg('A', 500+i, 20)) != nil {
+					return
+				}
+			}
+		}()
+		time.Sleep(dur + 25*cli.timeoutManager.GetResendTimeout() + 2*time.Second)
+		if isClosed(cli) || isClosed(srv) {
+			// the stall outlasted the keepalive: legitimate, and not what
+			// this run was meant to look at
+			rc.Probe("c13.earlier-stall-ended-the-connection")
+			p.closeAll()
+			return
+		}
+		rc.Fault("earlier-full-window-stall")
 	}
 	// silence begins at a tape-chosen instant (finer than every timer phase)
 	time.Sleep(time.Duration(rc.Pick(20000, "wl.silence-at")) * time.Millisecond)
@@ -213,9 +250,10 @@ func c13Dead(rc *simrt.RunCtx) {
 	}
 }
 
-func c13Idle(rc *simrt.RunCtx) { c13IdleX(rc, false) }
+func c13Idle(rc *simrt.RunCtx) { c13IdleX(rc, "") }
 
-func c13IdleX(rc *simrt.RunCtx, resonant bool) {
+func c13IdleX(rc *simrt.RunCtx, mode string) {
+	resonant, lostAck := mode == "resonant", mode == "lost-ack"
 	ns := []uint8{1, 2, DefaultN, 254}
 	if resonant {
 		ns = []uint8{1, 2, 3}
@@ -233,6 +271,19 @@ func c13IdleX(rc *simrt.RunCtx, resonant bool) {
 		lat = ping * time.Duration(1+rc.Pick(12, "knob.rlat")) / 8
 		pong := 2*lat + ping*time.Duration([]int{1, 2, 3, 5}[rc.Pick(4, "knob.rpong")])/4
 		tkC.ping, tkS.ping, tkC.pong, tkS.pong = ping, ping, pong, pong
+	}
+	if lostAck {
+		// a live peer whose acknowledgement of a ping (or of a message) is
+		// lost now and then: the retransmission is answered - with a NACK -
+		// well inside the pong timeout
+		pong := time.Duration(2+rc.Pick(4, "knob.lpong")) * time.Second
+		tkC.pong, tkS.pong = pong, pong
+		tkC.ping = time.Duration(2+rc.Pick(7, "knob.lpingc")) * time.Second
+		tkS.ping = time.Duration(2+rc.Pick(7, "knob.lpings")) * time.Second
+		tkC.static, tkS.static = true, true
+		tkC.resend = []time.Duration{100 * time.Millisecond, 400 * time.Millisecond}[rc.Pick(2, "knob.lresc")]
+		tkS.resend = []time.Duration{100 * time.Millisecond, 400 * time.Millisecond}[rc.Pick(2, "knob.lress")]
+		lat = time.Duration(1+rc.Pick(20, "net.latfast")) * time.Millisecond
 	}
 	rc.Knob("N", n)
 	rc.Knob("client", tkC)
@@ -261,7 +312,7 @@ func c13IdleX(rc *simrt.RunCtx, resonant bool) {
 	// sometimes the transport's write call returns late - after the packet,
 	// and possibly its acknowledgement, have already travelled
 	var lag time.Duration
-	if rc.Pick(3, "net.sendlag") == 0 {
+	if rc.Pick(3, "net.sendlag") == 0 && !lostAck {
 		lag = time.Duration(1+rc.Pick(int(3*lat/time.Millisecond)+1, "net.sendlagms")) * time.Millisecond
 		if lag > tkC.pong/2 {
 			lag = tkC.pong / 2
@@ -276,6 +327,23 @@ func c13IdleX(rc *simrt.RunCtx, resonant bool) {
 	s2c.latMin, s2c.latMax = lat, lat
 	np.s2c.sendLag = lag
 	np.s2c.mu.Unlock()
+	if lostAck {
+		for _, l := range []*link{np.c2s, np.s2c} {
+			l := l
+			lastDrop := time.Duration(-1 << 40)
+			l.mu.Lock()
+			l.filter = func(b []byte, now time.Duration) (byte, time.Duration) {
+				// isolated losses only: one ACK, then nothing for a while
+				if len(b) > 0 && b[0] == ACK && now-lastDrop > 15*time.Second && simrt.Pm(150, "net.lose-ack") {
+					lastDrop = now
+					rc.Probe("c13.ack-lost")
+					return 'x', 0
+				}
+				return 0, 0
+			}
+			l.mu.Unlock()
+		}
+	}
 	var wg sync.WaitGroup
 	for _, g := range []*GoBackNConn{cli, srv} {
 		g := g
@@ -297,7 +365,7 @@ func c13IdleX(rc *simrt.RunCtx, resonant bool) {
 	if lim := 2500 * minPing; lim < total {
 		total = lim
 	}
-	if resonant {
+	if resonant || lostAck {
 		total = 1200 * minPing
 	}
 	rc.Sample("N=%d client[%v] server[%v] one-way latency %v write-call lag %v idle for %v", n, tkC, tkS, lat, lag, total)
